@@ -686,7 +686,7 @@ func trackRun(e *Env) {
 	dials := 0
 	e.OnDial = func(l *simnet.Link) {
 		dials++
-		if dials > 1 {
+		if dials > 1 && e.Prop != "C13" {
 			// a reconnect issued by the poller after the mid-session end: a new
 			// session whose lines must not reach the tracker while a foreground
 			// handler of the old connection is still running
@@ -706,11 +706,11 @@ func trackRun(e *Env) {
 			return
 		}
 		net.l = l
-		e.S.Spawn("server", func() {
+		e.S.Spawn(fmt.Sprintf("server-%d", dials), func() {
 			if _, ok := Registration(l, time.Hour); !ok {
 				return
 			}
-			l.SendLine(":irc.sim 001 me :Welcome to the sim me!sim@host.sim")
+			l.SendLine(":irc.sim 001 " + net.me.nick + " :Welcome to the sim " + net.me.nick + "!sim@host.sim")
 			ready = true
 			for {
 				ln, ok := l.RecvLine()
@@ -727,6 +727,12 @@ func trackRun(e *Env) {
 	}
 	c = NewClient(ClientOpts{Nick: "me", Ident: "sim", Name: "Sim User", Flood: flood, Track: true})
 	st := c.StateTracker()
+	discs := 0
+	c.HandleFunc(client.DISCONNECTED, func(*client.Conn, *client.Line) { discs++ })
+	reconnectsLeft := 0
+	if e.Prop == "C13" && g.Pct(30) {
+		reconnectsLeft = g.Range(1, 2)
+	}
 
 	ended := false
 	endHow, endAt := 0, -1
@@ -959,6 +965,44 @@ func trackRun(e *Env) {
 			}
 		}
 		pick := func(cs []*netChan) *netChan { return cs[g.S.Choose(len(cs))] }
+		if reconnectsLeft > 0 && !adversary && g.S.Choose(12) == 0 {
+			// the link drops and the client connects again: for the network the
+			// client quit (it is on no channel any more); the tracker must start
+			// over and follow the new session
+			reconnectsLeft--
+			e.S.Count("fault.reconnect-mid-session")
+			for len(queries) > 0 {
+				queries = queries[1:]
+			}
+			d0 := discs
+			if g.S.Choose(2) == 0 {
+				net.l.CloseByServer()
+			} else {
+				c.Close()
+			}
+			if !simrt.BlockFor("track", "DISCONNECTED", time.Hour, func() bool { return discs > d0 }) {
+				e.Violation("harness", "no DISCONNECTED after the link dropped\n%s", e.S.TaskDump())
+				return
+			}
+			for _, ch := range net.chans {
+				delete(ch.members, net.me)
+				if len(ch.members) == 0 {
+					ch.topic, ch.key, ch.limit, ch.flags = "", "", 0, map[byte]bool{}
+				}
+			}
+			net.v = &view{me: net.me.nick, nicks: map[string]*vNick{net.me.nick: {ident: "sim", host: "host.sim", name: "Sim User"}}, chans: map[string]*vChan{}}
+			net.who352 = map[string]bool{}
+			queries = nil
+			ready = false
+			if err := c.Connect(); err != nil {
+				e.Violation("harness-connect", "reconnect failed: %v", err)
+				return
+			}
+			simrt.BlockFor("track", "welcome", time.Hour, func() bool { return ready })
+			simrt.Settle(time.Second)
+			queries = nil
+			continue
+		}
 		switch k := g.S.ChooseW(4, 2, 5, 4, 2, 3, 3, 6, 1, 2); {
 		case k == 0 && len(offChans) > 0:
 			net.evJoinMe(pick(offChans))
